@@ -159,6 +159,29 @@ def lattice_xy(chk, rng, count):
         (float(la[i, j]), float(lo[i, j])) == tuple(float(v) for v in xy_to_latlon(float(xs[i, j]), float(ys[i, j]), 47.2, 11.3)) for i in range(3) for j in range(5))
     if not ok:
         chk.violation("xy_to_latlon of arrays differs from the scalar results", {"kind": "geo_arrays"}, klass={"check": "arrays"})
+    # whole-metre offsets given as INTEGERS (Python ints, integer arrays such as an np.arange / np.meshgrid grid): the same
+    # positions as the float offsets, and the round trip holds
+    for ref in ((47.2031, 11.3052), (-33.4567, 151.2093)):
+        xi, yi = np.meshgrid(np.arange(-2000, 2001, 800), np.arange(-1500, 1501, 600))
+        forms = [("integer arrays", xi, yi), ("Python ints", 300, -400), ("Python ints at the origin", 0, 0), ("integer x, float y", 300, -400.0)]
+        for what, xa, ya in forms:
+            n += 1
+            try:
+                la_i, lo_i = xy_to_latlon(xa, ya, ref[0], ref[1])
+                la_f, lo_f = xy_to_latlon(np.asarray(xa, dtype=float), np.asarray(ya, dtype=float), ref[0], ref[1])
+                back_xy = [latlon_to_xy(float(a_), float(o_), ref[0], ref[1]) for a_, o_ in zip(np.ravel(la_i), np.ravel(lo_i))]   # the forward transform takes scalars
+                xb = np.array([b_[0] for b_ in back_xy]).reshape(np.shape(la_i))
+                yb = np.array([b_[1] for b_ in back_xy]).reshape(np.shape(la_i))
+            except Exception as ex:  # noqa: BLE001
+                chk.violation("xy_to_latlon of %s raised %r" % (what, ex), {"kind": "geo_integer_offsets", "form": what, "ref": ref}, klass={"check": "integer_offsets"})
+                continue
+            bad = float(np.max(np.abs(np.asarray(la_i, dtype=float) - la_f))) > 1e-12 or float(np.max(np.abs(np.asarray(lo_i, dtype=float) - lo_f))) > 1e-12
+            back = float(np.max(np.abs(np.asarray(xb) - np.asarray(xa, dtype=float)))) > 1e-5 or float(np.max(np.abs(np.asarray(yb) - np.asarray(ya, dtype=float)))) > 1e-5
+            if bad or back:
+                chk.violation("offsets given as %s: local -> lat/lon differs from the same offsets as floats by up to %.3g deg, and the round trip is off by up to %.3g m (reference %s)"
+                              % (what, max(float(np.max(np.abs(np.asarray(la_i, dtype=float) - la_f))), float(np.max(np.abs(np.asarray(lo_i, dtype=float) - lo_f)))),
+                                 max(float(np.max(np.abs(np.asarray(xb) - np.asarray(xa, dtype=float)))), float(np.max(np.abs(np.asarray(yb) - np.asarray(ya, dtype=float))))), ref),
+                              {"kind": "geo_integer_offsets", "form": what, "ref": ref}, klass={"check": "integer_offsets"})
     # the same TowerConfig objects in a second configuration with another reference origin, and re-localised in place
     from bldfm.config_parser import BLDFMConfig, DomainConfig, MetConfig, TowerConfig
     tw = [TowerConfig(name="a", lat=47.2031, lon=11.3052, z_m=3.0), TowerConfig(name="b", lat=47.1975, lon=11.2969, z_m=5.0)]
